@@ -7,6 +7,8 @@ use std::io::{BufRead, BufReader, Write};
 use std::panic::{catch_unwind, AssertUnwindSafe};
 
 mod ord;
+mod ua;
+mod mf;
 
 pub fn parse_ints(toks: &[&str]) -> Vec<i64> {
     toks.iter().map(|t| t.parse::<i64>().expect("int")).collect()
@@ -56,6 +58,8 @@ fn main() {
         let toks: Vec<&str> = line.split_whitespace().collect();
         let r = catch_unwind(AssertUnwindSafe(|| match args[1].as_str() {
             "ord" => ord::run(&toks),
+            "ua" => ua::run(&toks),
+            "mf" => mf::run(&toks),
             g => panic!("unknown group {}", g),
         }));
         match r {
